@@ -523,6 +523,10 @@ def directed_scenarios():
     S.append([("do", 0, 1, [("spawn", "builtin", "w", "a", "sysA")]), ("adv", 100), ("do", 0, 2, [("spawn", "builtin", "w", "a", "sysB")]), ("adv", 200),
               ("do", 0, 3, [("sendTo", "a", 1, 0, None), ("sendTo", "sysA", 2, 0, None), ("sendTo", "sysB", 3, 0, None)]), ("adv", 300),
               ("do", 0, 4, [("stopChild", "sysA")]), ("adv", 400), ("do", 0, 5, [("sendTo", "a", 4, 0, None)]), ("adv", 500)])
+    # ... and then the whole tree is stopped: the earlier child - thread-managed or not - must not survive the parent's stop()
+    for form in ("builtin", "blocking"):
+        S.append([("do", 0, 1, [("spawn", form, "w", "a", "sysA")]), ("adv", 100), ("do", 0, 2, [("spawn", "plain", "w", "a", "sysB")]), ("adv", 200),
+                  ("do", 0, 3, [("sendTo", "sysA", 1, 0, None), ("sendTo", "a", 2, 0, None)]), ("adv", 300), ("stop", 0), ("adv", 400)])
     # relay: the root relays each trigger to a child, many times in a row (machine bound 3)
     S.append([("do", 0, 1, [("spawn", "plain", "w", "a", None)]), ("adv", 100)] +
              [s for i in range(2, 12) for s in (("do", 0, i, [("sendTo", "a", i, 0, None)]),)] + [("adv", 300)])
